@@ -43,6 +43,7 @@ def nightly_sysroot():
 def tree_hash(repo, verif):
     h = hashlib.sha256()
     h.update(EXTRACT_VERSION.encode())
+    h.update(os.path.abspath(repo).encode())  # facts carry absolute paths: never share them between two trees
     files = []
     r = _sh(["git", "-C", repo, "ls-files", "-co", "--exclude-standard"])
     if r.returncode == 0:
